@@ -293,6 +293,23 @@ func genC06(t *rapid.T, tier string) (*World, any) {
 		pairText = " -- " + strings.Join(parts, " ")
 		feat["pairs"] = true
 	}
+	// one word listed with both endings of a pair, the second one excluded: the survivor is rewritten INTO the excluded text and stays
+	if len(pairs) > 0 && p.Kind == "include-except" && len(excNames) > 0 && chance(t, 20, "twin-endings") {
+		pr := pairs[drawInt(t, 0, len(pairs)-1, "twin-pair")]
+		base := "tw" + drawWord(t, 1, 3, "twin-base")
+		a, b := base+pr.Old, base+pr.New
+		if pr.New != `""` && !seenEntry[a] && !seenEntry[b] {
+			fLines = append(fLines, a, b)
+			fEntries = append(fEntries, a, b)
+			seenEntry[a], seenEntry[b] = true, true
+			excluded[b] = true
+			universe[lit(a)], universe[lit(b)] = true, true
+			w.Put("crs/regex-assembly/include/words.ra", joinLines(fLines))
+			xp := "crs/regex-assembly/exclude/" + excNames[0] + ".ra"
+			w.Put(xp, w.Files[xp].Text+b+"\n")
+			feat["rewritten-into-an-exclusion"] = true
+		}
+	}
 	// an entry that IS a pair's key (not merely ends in it) is rewritten as well; only for pairs that do not delete
 	if len(pairs) > 0 && chance(t, 25, "entry-is-key") {
 		pr := pairs[drawInt(t, 0, len(pairs)-1, "which-key")]
